@@ -124,6 +124,10 @@ pub fn run_history(h: &History, letters: Option<&[Letter]>, owned: &Owned, prop_
                     ("es", J::u(obs.eids.1 as u64)),
                 ]));
             }
+            if exp == Some(Expect::Resync) {
+                models[ci].resync(obs.eids);
+                rep.class("assignment-of-eid-0x00-or-0xff:unjudged,model-resynchronised");
+            }
             let discs = judge(exp.as_ref(), &obs, &models[ci]);
             for d in discs {
                 if !owned.cats.contains(&d.cat) {
